@@ -72,6 +72,9 @@ structure Inst where
   tracked : Bool := false
   /-- what the implementation printed for its configuration the last time it was asked (kept across a reset) -/
   lastCfg : Option String := none
+  /-- an injected state that no history from `Default` reaches (a partially filled tap ring): until the next reset
+  only the model correspondence applies, not the history-based specification clauses -/
+  nospec : Bool := false
 
 /-- first stage of a source pipe: an adapter tree, or a scripted source that may answer `none` (an end marker) and
 later items again (not fused) — the pipe must poll it on every pull and add no state of its own -/
@@ -362,6 +365,8 @@ def mkInjected (kind : String) (kv : KV) : Option (St V) :=
     pure (.debounce (← kv.nat "thr") (← kv.val "pred") (← kv.vals "out") (← kv.nat "count"))
   | "schmitt" => do
     pure (.schmitt (← kv.val "low") (← kv.val "high") (← kv.vals "out") ((kv.get "on") == some "true"))
+  | "convolve" => do pure (.convolve (← kv.vals "c") ((kv.vals "taps").getD []))
+  | "delay" => do pure (.delay (← kv.nat "N") ((kv.vals "taps").getD []))
   | _ => none
 
 /-! ### one line -/
@@ -458,7 +463,8 @@ def stepFilterOp (d : DState) (op : String) (toks impl : List String) : Option (
     let kv := parseKV rest
     let st ← mkInjected kind kv
     let hist := ((kv.vals "hist").getD []).map (fun v => [v])
-    let d := (d.put id { st := st, hist := hist, base := (kv.nat "count").getD 0 }).flag "inject"
+    let d := (d.put id { st := st, hist := hist, base := (kv.nat "count").getD 0,
+                         nospec := kind == "convolve" || kind == "delay" }).flag "inject"
     some (report d op { model := "ok", impl := implS })
   | "f" :: id :: args => do
     let id ← id.toNat?
@@ -477,7 +483,7 @@ def stepFilterOp (d : DState) (op : String) (toks impl : List String) : Option (
       some (report d op { model := "PANIC", impl := implS, kind := kindName inst.st })
     | some (st', y) =>
       let clauses := match implOut with
-        | some yi => specFilter inst.base st' hist yi
+        | some yi => if inst.nospec then [] else specFilter inst.base st' hist yi
         | none => [clauseP "no-panic" false (renderOut (some y))]
       let d := (stepFlags inst.st st' hist).foldl DState.flag d
       let d := d.put id { inst with st := st', hist := hist, last := some implOut }
